@@ -39,6 +39,7 @@ class ReconnH(explore.Harness):
         self.idles = 0
         self.env_marks = []
         self.model_excluded = set()
+        self.n_closes = 0
         self.round_open = False
         self.viol = []
         self.callers = []  # dict(task, t0, kind)
@@ -132,8 +133,13 @@ class ReconnH(explore.Harness):
                 if any(not c["task"].done() for c in self.callers):
                     m.append("cancel-ensure")
             elif t in ("close", "shutdown"):
-                if self.shutdown_at is None and not (t == "close" and self.closed_at == self.loop.time()):
+                if self.n_closes < 2:  # closing twice (application close, then controller shutdown) is ordinary use
                     m.append(t)
+                    if self.n_closes == 0 and self.p.get("preemptive_triggers", True):
+                        # a trigger that lands while close()/shutdown() is still running (k loop iterations after it started)
+                        for trig in ("zc-same", "ensure"):
+                            for k in (1, 2):
+                                m.append(f"{t}+{trig}@{k}")
             else:
                 m.append(t)
         return m
@@ -191,13 +197,26 @@ class ReconnH(explore.Harness):
             c = next(c for c in self.callers if not c["task"].done())
             c["cancelled_by_harness"] = True
             c["task"].cancel()
-        elif k == "close":
+        elif k.startswith("close") or k.startswith("shutdown"):
+            base, _, rest = k.partition("+")
+            self.n_closes += 1
             self.closed_at = now
-            self.close_tasks.append(self.loop.create_task(self.pairing.close()))
-        elif k == "shutdown":
-            self.shutdown_at = now
-            self.closed_at = now
-            self.close_tasks.append(self.loop.create_task(self.pairing.shutdown()))
+            if base == "shutdown":
+                self.shutdown_at = now
+            self.close_tasks.append(self.loop.create_task(self.pairing.shutdown() if base == "shutdown" else self.pairing.close()))
+            if rest:
+                trig, _, n = rest.partition("@")
+                for _ in range(int(n)):
+                    if self.loop.has_ready():
+                        self.loop.run_batch()
+                # the trigger arrives while the close is in progress; it is issued *after* the close call, so for the property it is
+                # "after close": with shutdown() nothing may start any more, with close() it counts as a later explicit trigger
+                self.trigger_times.append((now, trig))
+                self.trigger_after_close = True
+                if trig == "zc-same":
+                    self.pairing._async_description_update(mk_description(self.cur_hosts, s=len(self.trigger_times) + 1))
+                else:
+                    self._start_ensure("ensure")
         elif k == "drop":
             self.env_marks.append((now, "drop"))
             self._current_conn().peer_close()
@@ -239,8 +258,11 @@ class ReconnH(explore.Harness):
             for c in opened:
                 if c is not cur:
                     self.viol.append(("c11:abandoned-connection-left-open:" + getattr(c, "behaviour", "?"), {"cid": c.cid, "t": now}))
-        for t in self.close_tasks:
-            if t.done() and not t.cancelled() and t.exception() is not None:
+        for t in list(self.close_tasks):
+            if t.done() and t.cancelled():
+                self.viol.append(("c11:close-raises:CancelledError", {"t": now}))  # nobody cancelled the caller: close() itself raised it
+                self.close_tasks.remove(t)
+            elif t.done() and t.exception() is not None:
                 self.viol.append(("c11:close-raises:" + type(t.exception()).__name__, {"t": now}))
                 self.close_tasks.remove(t)
         if self.closed_at is not None and all(t.done() for t in self.close_tasks) and self.close_tasks and self._no_trigger_since(self.closed_at):
@@ -270,6 +292,8 @@ class ReconnH(explore.Harness):
         self._check_callers()
 
     def _no_trigger_since(self, t):
+        if getattr(self, "trigger_after_close", False):
+            return False
         return not any(tt > t or (tt == t and k not in ("close", "shutdown")) for tt, k in self.trigger_times if tt >= t)
 
     def _check_callers(self):
